@@ -1,6 +1,6 @@
 //! C10 — compressor output is valid for independent decoders and honours level/strategy.
 
-use super::c02::{run_one, Hist};
+use super::c02::{gen_lzfill, run_one, Hist};
 use super::comp::*;
 use crate::ctx::Ctx;
 use crate::gen::data;
@@ -97,7 +97,8 @@ pub fn run(ctx: &Ctx, rep: &mut Report) {
     let rounds = ctx.n(3, 80);
     let n_cfg = 880 * rounds;
     let n_red = ctx.n(300, 6000);
-    for k in ctx.cases(n_cfg + n_red) {
+    let n_fill = ctx.n(64, 1000);
+    for k in ctx.cases(n_cfg + n_red + n_fill) {
         rep.cur_case = k;
         crate::ctx::begin_case(k);
         let mut rng = ctx.rng("case", k);
@@ -124,8 +125,14 @@ pub fn run(ctx: &Ctx, rep: &mut Report) {
                     rep.nontrivial(hs.finish());
                 }
             }
-        } else {
+        } else if k < n_cfg + n_red {
             redundancy(rep, &mut rng, k - n_cfg);
+        } else {
+            let h = gen_lzfill(&mut rng);
+            if let Some((run, o)) = run_one("C10", rep, &h) {
+                let det = |note: &str| history_detail(&h.cfg, h.api, &h.plain, &h.steps, &run, note);
+                mode_rules(rep, &h, &o, &det);
+            }
         }
     }
 }
